@@ -9,7 +9,7 @@
 From Coq Require Import ZArith QArith List Bool Permutation.
 Import ListNotations.
 From TK Require Import Validate_Model Validate_Spec Validate_Proof Validate_Proof_Steps
-  Validate_Proof_Main Validate_Proof_Gen Validate_Proof_Order Validate_Float Validate.
+  Validate_Proof_Main Validate_Proof_Gen Validate_Proof_Order Validate_Proof_Bodies Validate_Float Validate.
 
 (* ---- predicate objects of predicates.hpp, over all of Q *)
 Theorem in_range_semantics : forall n ty l u x,
@@ -29,6 +29,116 @@ Print Assumptions positive_semantics.
 Theorem non_negative_semantics : forall n ty x, pred_holds n ty non_negative x = true <-> (0 <= x)%Q.
 Proof. exact non_negative_spec. Qed.
 Print Assumptions non_negative_semantics.
+
+(* ---- wave 2: the BODIES of operator()(T v) as the translator reads them from predicates.hpp
+        (gen_pred_* in coq/gen/Validate.v: comparison operator and operand of every conjunct), over all
+        of Q and for every instantiation type *)
+Theorem generated_positivity_semantics : forall ty x,
+  body_holds ty [] (pb_conj gen_pred_Positivity) x = true <-> (0 < x)%Q.
+Proof. exact gen_positivity_body. Qed.
+Print Assumptions generated_positivity_semantics.
+
+Theorem generated_non_negativity_semantics : forall ty x,
+  body_holds ty [] (pb_conj gen_pred_NonNegativity) x = true <-> (0 <= x)%Q.
+Proof. exact gen_non_negativity_body. Qed.
+Print Assumptions generated_non_negativity_semantics.
+
+Theorem generated_in_range_semantics : forall ty l u x,
+  body_holds ty [l; u] (pb_conj gen_pred_InRange) x = true <-> (l <= x /\ x < u)%Q.
+Proof. exact gen_in_range_body. Qed.
+Print Assumptions generated_in_range_semantics.
+
+Theorem generated_in_closed_range_semantics : forall ty l u x,
+  body_holds ty [l; u] (pb_conj gen_pred_InClosedRange) x = true <-> (l <= x /\ x <= u)%Q.
+Proof. exact gen_in_closed_range_body. Qed.
+Print Assumptions generated_in_closed_range_semantics.
+
+(* the walker's predicate object (one optional bound per side) built from a body IS that body *)
+Theorem predicate_object_is_its_body : forall n ty args conj p x,
+  instantiate ty args conj no_pred = Some p ->
+  pred_holds n ty p x = body_holds ty (map (bound n ty) args) conj x.
+Proof. exact predicate_object_body. Qed.
+Print Assumptions predicate_object_is_its_body.
+
+Example predicate_object_nonvacuous :
+  instantiate TIndex [BInt 1; BN] (pb_conj gen_pred_InRange) no_pred = Some (in_range (BInt 1) BN).
+Proof. reflexivity. Qed.
+
+(* every check of the generated tables is the use at that place of the source instantiated at the
+   generated body (finite), hence means exactly what the statement says *)
+Theorem generated_checks_cover : length gen_pred_uses = length (checks_of gen_tables).
+Proof. exact gen_uses_cover. Qed.
+Print Assumptions generated_checks_cover.
+
+Theorem generated_checks_meaning : forall u c,
+  In (u, c) (combine gen_pred_uses (checks_of gen_tables)) ->
+  forall n x, pred_holds n (c_ty c) (c_pred c) x = true <-> use_meaning n u x.
+Proof. exact gen_checks_meaning. Qed.
+Print Assumptions generated_checks_meaning.
+
+Example generated_checks_nonvacuous :
+  exists u c, In (u, c) (combine gen_pred_uses (checks_of gen_tables)) /\ pu_pred u = 3%nat.
+Proof. do 2 eexists. split; [vm_compute; right; right; left; reflexivity | reflexivity]. Qed.
+
+(* ---- wave 2: the members of stichwort::ParametersSet / Parameter as the translator reads them from
+        parameter.hpp (gen_container), interpreted by Validate_Model.run_cstmt, compute exactly the
+        functions the walker uses: for EVERY set, parameter, reference set and name *)
+Theorem container_add : forall s p, run_add gen_container s p = CNormal (ps_add s p).
+Proof. exact gen_add. Qed.
+Print Assumptions container_add.
+
+Theorem container_check : forall s,
+  run_check gen_container s = match ps_dups s with [] => CNormal s | _ :: _ => CThrown SwMultiple end.
+Proof. exact gen_check. Qed.
+Print Assumptions container_check.
+
+Theorem container_check_types : forall s d,
+  run_check_types gen_container s d =
+  if existsb (wrong_type_vs d) (ps_map s) then CThrown SwWrongType else CNormal s.
+Proof. exact gen_check_types. Qed.
+Print Assumptions container_check_types.
+
+Theorem container_merge : forall s d,
+  run_merge gen_container s d = CNormal {| ps_map := pm_merge (ps_map s) d; ps_dups := ps_dups s |}.
+Proof. exact gen_merge. Qed.
+Print Assumptions container_merge.
+
+Theorem container_index : forall s k,
+  run_index gen_container s k =
+  match pm_lookup k (ps_map s) with Some v => CReturned s (Some v) | None => CThrown SwMissed end.
+Proof. exact gen_index. Qed.
+Print Assumptions container_index.
+
+(* (a), (a, b), ((a, b), c), ...: Parameter::operator ParametersSet, Parameter::operator, and
+   ParametersSet::operator, chained for EVERY arity build the set add() by add(), left to right *)
+Theorem comma_expression_every_arity : forall kws,
+  comma_expression gen_container kws = Some (ps_build kws).
+Proof. exact gen_comma_expression. Qed.
+Print Assumptions comma_expression_every_arity.
+
+Theorem merge_never_overwrites : forall s d s' k v,
+  run_merge gen_container s d = CNormal s' -> pm_lookup k (ps_map s) = Some v ->
+  pm_lookup k (ps_map s') = Some v.
+Proof. exact gen_merge_never_overwrites. Qed.
+Print Assumptions merge_never_overwrites.
+
+Example merge_never_overwrites_nonvacuous :
+  run_merge gen_container (ps_build [(kw_num_neighbors, VIndex 7)]) doc_defaults =
+    CNormal {| ps_map := pm_merge [(kw_num_neighbors, VIndex 7)] doc_defaults; ps_dups := [] |} /\
+  pm_lookup kw_num_neighbors (ps_map (ps_build [(kw_num_neighbors, VIndex 7)])) = Some (VIndex 7).
+Proof. split; reflexivity. Qed.
+
+Theorem duplicates_found_anywhere : forall kws s,
+  comma_expression gen_container kws = Some s ->
+  (run_check gen_container s = CThrown SwMultiple <-> nodupb (map fst kws) = false).
+Proof. exact gen_duplicates_found. Qed.
+Print Assumptions duplicates_found_anywhere.
+
+Example duplicates_found_nonvacuous :
+  exists s, comma_expression gen_container
+              [(kw_num_neighbors, VIndex 4); (kw_num_neighbors, VIndex 5); (kw_method, VMethod Isomap)] = Some s /\
+            run_check gen_container s = CThrown SwMultiple.
+Proof. eexists. split; reflexivity. Qed.
 
 (* ---- the generated table is the documented one (finite; by evaluation) and is well formed *)
 Theorem doc_table_matches : summarise gen_tables = doc_tables.
@@ -220,26 +330,26 @@ Example cells_nonvacuous :
 Proof. vm_compute. repeat split; reflexivity. Qed.
 
 (* ---- the two bounds the C++ computes in double arithmetic: 3.0 / N and (N - 1) / 3.0.
-        For every N up to 4096 the binary64 quotient (Coq primitive floats) is within one unit in
+        For every N up to 65536 the binary64 quotient (Coq primitive floats) is within one unit in
         the last place of the exact rational bound of the model, and equal to it when the exact
         bound is a double. *)
-Theorem computed_bounds_binary64 : forall n, (1 <= n <= 4096)%Z ->
+Theorem computed_bounds_binary64 : forall n, (1 <= n <= 65536)%Z ->
   float_bound_ok (BDiv (BReal 3) BN) n = true /\
   float_bound_ok (BDiv (BSub BN (BInt 1)) (BReal 3)) n = true.
-Proof. exact float_bounds_ok_4096. Qed.
+Proof. exact float_bounds_ok_65536. Qed.
 Print Assumptions computed_bounds_binary64.
 
-Example computed_bounds_nonvacuous : (1 <= 7 <= 4096)%Z.
+Example computed_bounds_nonvacuous : (1 <= 7 <= 65536)%Z.
 Proof. split; discriminate. Qed.
 
 (* ---- int(N * landmark_ratio) of repair F21: the binary64 product, truncated, equals the exact count
-        of the model for every N <= 64 and every ratio k/64 (the ratios the harness generates) *)
-Theorem landmark_count_binary64 : forall n k, (0 <= n <= 64)%Z -> (0 <= k <= 64)%Z ->
+        of the model for every N <= 256 and every ratio k/256 (the harness generates multiples of 1/64) *)
+Theorem landmark_count_binary64 : forall n k, (0 <= n <= 256)%Z -> (0 <= k <= 256)%Z ->
   landmarks_ok n k = true.
-Proof. exact landmarks_ok_64. Qed.
+Proof. exact landmarks_ok_256. Qed.
 Print Assumptions landmark_count_binary64.
 
-Example landmark_count_nonvacuous : (0 <= 10 <= 64)%Z /\ (0 <= 19 <= 64)%Z.
+Example landmark_count_nonvacuous : (0 <= 10 <= 256)%Z /\ (0 <= 19 <= 256)%Z.
 Proof. repeat split; discriminate. Qed.
 
 (* ---- regression: the stage order of the tree before repair F27 (no checkTypes) *)
